@@ -1,5 +1,6 @@
 mod handle_stream;
 mod path_stream;
+mod record_stream;
 mod replay;
 mod tree_stream;
 mod util;
@@ -47,6 +48,7 @@ fn main() {
         "path" => path_stream::run(&o),
         "tree" => tree_stream::run(&o),
         "handle" => handle_stream::run(&o),
+        "record" => record_stream::run(&o),
         "replay" => replay::run(&o),
         s => {
             eprintln!("unknown stream {}", s);
